@@ -42,6 +42,10 @@ func (w *Weekdays) UnmarshalJSON(bytes []byte) error {
 		return err
 	}
 
+	if *w == nil {
+		*w = Weekdays{}
+	}
+
 	(*w)[time.Monday] = false
 	(*w)[time.Tuesday] = false
 	(*w)[time.Wednesday] = false
